@@ -4,10 +4,12 @@ package main
 
 import (
 	"bufio"
+	"bytes"
 	"context"
 	"errors"
 	"fmt"
 	"net"
+	"os"
 	"reflect"
 	"regexp"
 	"runtime"
@@ -15,9 +17,14 @@ import (
 	"strings"
 	"sync"
 	"sync/atomic"
+	"time"
 
+	"github.com/postalsys/muti-metroo/internal/agent"
+	"github.com/postalsys/muti-metroo/internal/config"
 	"github.com/postalsys/muti-metroo/internal/identity"
 	"github.com/postalsys/muti-metroo/internal/peer"
+	"github.com/postalsys/muti-metroo/internal/protocol"
+	"github.com/postalsys/muti-metroo/internal/shell"
 	"github.com/postalsys/muti-metroo/internal/transport"
 )
 
@@ -31,6 +38,11 @@ import (
 //	life|alife <d|l> <n> (on a connection | on a bare allocator) n rounds of: allocate a, allocate b, "give a back" through every public method of the connection /
 //	                     its allocator whose name matches release|reset|return|free|rewind (reflection), allocate c;
 //	                     statistics over all 3n ids -> ok n=… distinct=… (as conc)
+//	mix <d|l> <seq>      ONE real agent with one peer connection (this end has the given role) and a default route through
+//	                     it; seq is a string over t (TCP: Agent.DialContext), u (UDP association), i (ICMP session),
+//	                     s (shell stream): each letter runs that ingress path until its open frame is on the wire; the
+//	                     StreamIDs of all STREAM_OPEN / UDP_OPEN / ICMP_OPEN frames the peer received
+//	                     -> ok n=… distinct=… min=… max=… zero=… badparity=… kinds=<S|U|I per frame>
 //	pair <g> <p>         both ends of a connection at the same time
 //	                     -> ok d: n=… distinct=… min=… max=… zero=… badparity=… l: … overlap=<k>
 //	seq <d|l> <k>        first k ids of a fresh transport.StreamIDAllocator -> ok id id …
@@ -97,6 +109,100 @@ func c38Stats(out [][]uint64, dialer bool) (string, map[uint64]struct{}) {
 		min = 0
 	}
 	return fmt.Sprintf("n=%d distinct=%d min=%d max=%d zero=%d badparity=%d", n, len(set), min, max, zero, bad), set
+}
+
+// c38Buf collects the frames an agent writes to its peer.
+type c38Buf struct {
+	mu sync.Mutex
+	b  bytes.Buffer
+}
+
+func (b *c38Buf) Write(p []byte) (int, error) {
+	b.mu.Lock()
+	defer b.mu.Unlock()
+	return b.b.Write(p)
+}
+
+func (b *c38Buf) snapshot() []byte {
+	b.mu.Lock()
+	defer b.mu.Unlock()
+	return append([]byte(nil), b.b.Bytes()...)
+}
+
+// c38Opens parses the frames written so far and returns (stream id, kind) of the stream-opening ones.
+func c38Opens(data []byte) (ids []uint64, kinds string) {
+	r := protocol.NewFrameReader(bytes.NewReader(data))
+	for {
+		fr, err := r.Read()
+		if err != nil {
+			return
+		}
+		switch fr.Type {
+		case protocol.FrameStreamOpen:
+			ids, kinds = append(ids, fr.StreamID), kinds+"S"
+		case protocol.FrameUDPOpen:
+			ids, kinds = append(ids, fr.StreamID), kinds+"U"
+		case protocol.FrameICMPOpen:
+			ids, kinds = append(ids, fr.StreamID), kinds+"I"
+		}
+	}
+}
+
+func c38Mix(dialer bool, seq string) string {
+	dir, err := os.MkdirTemp("", "verif-c38-")
+	must(err)
+	defer os.RemoveAll(dir)
+	var self, remote identity.AgentID
+	for i := range self {
+		self[i], remote[i] = 0x51, 0x52
+	}
+	cfg := config.Default()
+	cfg.Agent.ID = self.String()
+	cfg.Agent.DataDir = dir
+	cfg.Agent.LogLevel = "error"
+	a, err := agent.New(cfg)
+	must(err)
+	buf := &c38Buf{}
+	must(agent.C38Setup(a, remote, dialer, buf))
+	var cancels []context.CancelFunc
+	var done sync.WaitGroup
+	for n, k := range seq {
+		ctx, cancel := context.WithCancel(context.Background())
+		cancels = append(cancels, cancel)
+		dest := net.IPv4(10, 9, byte(n>>8), byte(n+1))
+		done.Add(1)
+		go func(k rune) {
+			defer done.Done()
+			switch k {
+			case 't':
+				if c, err := a.DialContext(ctx, "tcp", net.JoinHostPort(dest.String(), "80")); err == nil {
+					c.Close()
+				}
+			case 'u':
+				agent.C38OpenUDP(a, ctx, dest)
+			case 'i':
+				a.CreateICMPSession(ctx, dest)
+			case 's':
+				a.OpenShellStream(ctx, remote, &shell.ShellMeta{Command: "true"}, false)
+			}
+		}(k)
+		// this ingress path has done its allocation once its open frame is on the wire
+		deadline := time.Now().Add(20 * time.Second)
+		for {
+			ids, _ := c38Opens(buf.snapshot())
+			if len(ids) > n || time.Now().After(deadline) {
+				break
+			}
+			time.Sleep(100 * time.Microsecond)
+		}
+	}
+	ids, kinds := c38Opens(buf.snapshot())
+	for _, c := range cancels {
+		c()
+	}
+	done.Wait()
+	st, _ := c38Stats([][]uint64{ids}, dialer)
+	return "ok " + st + " kinds=" + kinds
 }
 
 var c38GiveBackRe = regexp.MustCompile(`(?i)release|reset|return|free|rewind`)
@@ -235,6 +341,8 @@ func init() {
 				}
 				st, _ := c38Stats([][]uint64{ids}, dialer)
 				return "ok " + st
+			case "mix":
+				return c38Mix(f[1] == "d", f[2])
 			case "pair":
 				g, p := atoi(f[1]), atoi(f[2])
 				cd, cl := c38NewConn(true), c38NewConn(false)
@@ -296,6 +404,14 @@ func init() {
 				// cold connections: the very first allocations race
 				for _, g := range []int{2, 3, 4} {
 					fmt.Fprintf(w, "cold d %d %d\ncold l %d %d\n", 700+r.intn(300), g, 700+r.intn(300), g)
+				}
+				// who allocates: all ingress paths of one agent on one connection
+				for _, role := range []string{"d", "l"} {
+					seq := ""
+					for j, m := 0, 4+r.intn(10); j < m; j++ {
+						seq += r.pickS("t", "t", "u", "u", "i", "s")
+					}
+					fmt.Fprintf(w, "mix %s %s\nmix %s ttutiust\n", role, seq, role)
 				}
 				fmt.Fprintf(w, "life d %d\nlife l %d\nalife d %d\nalife l %d\n", 1+r.intn(50), 1+r.intn(50), 1+r.intn(50), 1+r.intn(50))
 				for i := 0; i < 20; i++ {
